@@ -33,6 +33,9 @@ CHECKS = {
  "C09": ("exhaustive print/parse round trips over enumerated inputs (E1): every single ASCII byte and all short strings over a critical character set, every byte and byte pairs, boundary numbers/floats/times/durations, a ~5000-constant structured universe, atoms, the C04 clause space, temporal clauses, type expressions",
          "bounded-exhaustive: every object of the enumerated spaces is printed with String(), parsed with the matching parse entry point (constants evaluated with functional.EvalExpr) and compared with Equals and with an independent structural key; clauses additionally by print-parse-print fixpoint",
          "valid UTF-8 strings, lexer-valid names, finite floats, second-resolution timestamps in annotations (the alphabet the property names)", "4 C09"),
+ "C12": ("exhaustive pairwise checking over a closed type universe x constant universe (E1): SetConforms(S,T) affirmed => members(S) subset members(T); UpperBound/LowerBound of every pair and of every triple of a sub-alphabet, membership by the library's HasType",
+         "bounded-exhaustive: every ordered pair of a ~600-type universe is judged and checked against the membership matrix over ~1500 constants; every alarm carries a concrete separating constant",
+         "relative to the constant universe V; two design inconsistencies asserted by the repo's own tests (map key contravariance, struct width subtyping vs exact membership) are recorded as known findings and attributed only when the witness is explained by exactly that relaxation", "4 C12"),
 }
 NOT_APPLICABLE = {
 }
